@@ -1,7 +1,7 @@
 """C02 — boolean collision tests (structural clauses)."""
 from . import scopes
 from ..core.report import DOMAIN_D
-from ..rules import nesterov, mink, loops, runmin, libccd
+from ..rules import nesterov, mink, loops, runmin, libccd, unpack
 
 MODS = ["distance3d.gjk._gjk_jolt", "distance3d.gjk._gjk_libccd", "distance3d.mpr", "distance3d.gjk._gjk_nesterov_accelerated",
         "distance3d.gjk._gjk_nesterov_accelerated_primitives", "distance3d.minkowski"]
@@ -24,3 +24,4 @@ def run(idx, rep, tier):
     nesterov.r_dtree(idx, rep)
     nesterov.r_tuplerole(idx, rep, floor=6)
     loops.r_loop(idx, rep, MODS, floor=10)
+    unpack.r_unpack(idx, rep, floor=28)
